@@ -269,10 +269,160 @@ def two_phase(ctx, B, paths, outer, S, amap, bmap, is_utf8_test, map_events, is_
     for need in (False, True):
         ctx.add('V2.coverage', 'attribute completed, some value non-UTF-8=%s' % need, root, need in seen, 'no path for this situation')
 
+# ---- V2.value-lists-exact: the function from the value list of an attribute to the two maps, by exact literal evaluation ----------
+# `construct` is interpreted on literal entries (element trees as the TLV parser builds them; the accessors of the tree type are
+# inlined, the element vectors, the local vectors and the two maps - rules/assocmap.py - are tracked exactly, str::from_utf8 /
+# String::from_utf8 / from_utf8_lossy are decided on the literal octets), one entry per member of a finite partition of value lists:
+# 0, 1, 2 and 3 values, each valid UTF-8 or not, in every order - all text, all binary, binary then text, text then binary,
+# text-binary-text, ... -, with the empty string, a multi-octet character, a truncated sequence and repeated values among them.
+# Nothing of the spelling is read: a flag or none, one pass or two, iterator chain or loop, entry() / get_mut() / insert(), a
+# temporary vector or none all come to the one outcome that is judged - what the two maps hold under the attribute's type:
+#   * the attribute is a key of exactly one of the maps;
+#   * of `attrs` exactly when every value is valid UTF-8 - the attribute without values included (the unchanged code inserts it
+#     into `attrs` with an empty vector: no value failed the test) -, and then `attrs` holds the values, decoded, in order;
+#   * otherwise of `bin_attrs`, which then holds ALL its values as octets, each as often as it was sent.  The property fixes no
+#     order there (the unchanged code yields the non-UTF-8 values in the order received followed by the UTF-8 ones in the order
+#     received: [t1, b1, t2] -> [b1, t1, t2]), so the lists of a non-text attribute are compared as multisets.
+# Entries with two attributes decide that what one attribute leaves behind (a flag, a vector, a map entry) does not reach the next.
+T_VALUES = (b'a', b'', b'\xc3\xa9b')            # valid UTF-8: one character, the empty string, a two-octet character and another
+B_VALUES = (b'\xff', b'\xc3', b'a\x80\x00')      # not valid UTF-8: an octet that never occurs, a truncated sequence, a stray continuation octet
+
+def value_lists():
+    import itertools
+    out = []
+    for n in range(4):
+        for kinds in itertools.product('TB', repeat=n):
+            out.append([(T_VALUES if k == 'T' else B_VALUES)[i] for i, k in enumerate(kinds)])
+    out += [[b'a', b'a'], [b'\xff', b'\xff'], [b'a', b'\xff', b'a'], [b'\xff', b'a', b'\xff'], [b''], [b'', b'\xff']]
+    res = []
+    for v in out:
+        if v not in res:
+            res.append(v)
+    return res
+
+def entry_tree(attrs):
+    """SearchResultEntry ::= [APPLICATION 4] SEQUENCE { objectName LDAPDN, attributes SEQUENCE OF SEQUENCE { type, vals SET OF value } }"""
+    import envelope as env
+    return env.cons('Application', 4, [env.prim('Universal', 4, b'cn=x'), env.cons('Universal', 16, [
+        env.cons('Universal', 16, [env.prim('Universal', 4, name), env.cons('Universal', 17, [env.prim('Universal', 4, v) for v in vals])]) for name, vals in attrs])])
+
+def is_utf8(b):
+    try:
+        b.decode('utf-8')
+        return True
+    except UnicodeDecodeError:
+        return False
+
+def show_values(vals):
+    return '[%s]' % ', '.join(("''" if not v else v.hex()) for v in vals)
+
+def held(t, as_text):
+    """the values a vector term of one of the maps holds, as Python strings (attrs) / octet strings (bin_attrs: a String that became
+    a Vec<u8> through into_bytes is its UTF-8 encoding); None when an element is not a known value"""
+    els = absx.listed_elems(t)
+    if els is None:
+        return None
+    out = []
+    for x in els:
+        if x[0] != 'lit':
+            return None
+        if as_text:
+            if not isinstance(x[1], str):
+                return None
+            out.append(x[1])
+        elif isinstance(x[1], str):
+            out.append(x[1].encode('utf-8'))
+        elif isinstance(x[1], bytes):
+            out.append(x[1])
+        else:
+            return None
+    return out
+
+def judge_entry(attrs, outs):
+    """what is wrong with the outcomes of `construct` on the entry with these (type, values) attributes: a list of sentences"""
+    import assocmap
+    rets = [o for o in outs if o.kind in ('val', 'ret')]
+    if len(outs) != 1 or len(rets) != 1:
+        kinds = sorted({'a panic' if o.kind == 'div' else 'an unfinished loop' if o.kind == 'loop' else 'a return' if o.kind in ('val', 'ret') else o.kind for o in outs})
+        if len(outs) == 1 and outs[0].kind == 'div':
+            pe = [e for e in outs[0].st.ev if e[0] == 'panic']
+            return ['`construct` panics on this well-formed entry (%s)' % (pe[-1][1].rsplit('::', 1)[-1] if pe else '?')]
+        return ['not decided: the literal evaluation ends in %d outcomes (%s) instead of one' % (len(outs), ', '.join(kinds) or 'none')]
+    o = rets[0]
+    if o.val[0] != 'struct':
+        return ['not decided: the value returned is not a struct expression (%s)' % absx.fmt(o.val)[:60]]
+    fl = dict(o.val[2])
+    wrong = []
+    if fl.get('dn') != ('lit', 'cn=x'):
+        wrong.append('dn is %s, not the objectName sent (cn=x)' % absx.fmt(fl.get('dn', ('unk',)))[:40])
+    A, Bm = assocmap.contents(o.st, fl.get('attrs', ('unk',))), assocmap.contents(o.st, fl.get('bin_attrs', ('unk',)))
+    if A is None or Bm is None:
+        why = [e for e in o.st.ev if e[0] == 'map-poisoned']
+        return wrong + ['not decided: %s is not a map whose content the evaluation could follow%s' % (
+            ' / '.join(n for n, m in (('attrs', A), ('bin_attrs', Bm)) if m is None), ' (handed to `%s`)' % why[0][2].rsplit('::', 1)[-1] if why else '')]
+    A, Bm = dict(A), dict(Bm)
+    for name, vals in attrs:
+        k = ('lit', name.decode())
+        who = 'the attribute' if len(attrs) == 1 else 'attribute `%s` (values %s)' % (name.decode(), show_values(vals))
+        in_a, in_b = k in A, k in Bm
+        ha = held(A[k], True) if in_a else None
+        hb = held(Bm[k], False) if in_b else None
+        sa = ('attrs holds %s' % (show_values([x.encode() for x in ha]) if ha is not None else absx.fmt(A[k])[:60])) if in_a else ''
+        sb = ('bin_attrs holds %s' % (show_values(hb) if hb is not None else absx.fmt(Bm[k])[:60])) if in_b else ''
+        all_text = all(is_utf8(v) for v in vals)
+        if in_a and in_b:
+            wrong.append('%s is a key of both maps, %s, %s' % (who, sa, sb))
+        elif not in_a and not in_b:
+            wrong.append('%s is a key of neither map: it is lost' % who)
+        elif all_text and in_b:
+            wrong.append('every value of %s is valid UTF-8%s but it is a key of bin_attrs, not of attrs; %s' % (who, ' (it has none)' if not vals else '', sb))
+        elif not all_text and in_a:
+            wrong.append('%s has a value that is not valid UTF-8 but is a key of attrs, not of bin_attrs; %s' % (who, sa))
+        elif all_text:
+            if ha != [v.decode('utf-8') for v in vals]:
+                wrong.append('%s: attrs must hold its values, decoded, in the order sent; %s' % (who, sa))
+        else:
+            if hb is None or sorted(hb) != sorted(vals):
+                wrong.append('%s: bin_attrs must hold all its values as octets, each as often as sent (in any order); %s' % (who, sb))
+    extra = [absx.fmt(k) for k in list(A) + list(Bm) if k not in [('lit', n.decode()) for n, _v in attrs]]
+    if extra:
+        wrong.append('the maps hold keys that are no attribute type of the entry: %s' % ', '.join(extra)[:80])
+    return wrong
+
+def exact_value_lists(ctx, f, B):
+    import assocmap
+    inl = lambda c: c.startswith('lber::structure::') or c.startswith('<lber::structure::') or c.startswith('lber::common::')
+    def construct(attrs):
+        I = absx.Interp(f, B, summaries=[assocmap.summary], unroll=8, inline=inl, combinators=True, places=True, local_try=True)
+        I.exact_seqs = True
+        env = I.param_env()
+        params = [b for b, v in env.items() if v[0] == 'param']
+        if len(params) != 1:
+            return None
+        env[params[0]] = ('ctor', 'ResultEntry', (entry_tree(attrs), ('vec', ())))
+        return I.run(env=env)
+    n = 0
+    cases = [[(b'a', vals)] for vals in value_lists()]
+    cases += [[(b'a', [b'\xff']), (b'b', [b'x'])], [(b'a', [b'x']), (b'b', [b'\xff'])], [(b'a', [b'x', b'\xff']), (b'b', [b'\xfe', b'y'])],
+              [(b'a', [b'\xff', b'x']), (b'b', [])], [(b'a', []), (b'b', [b'\xff'])], [(b'a', [b'x']), (b'b', [b'y', b'z'])]]
+    for attrs in cases:
+        outs = construct(attrs)
+        if outs is None:
+            ctx.fail('V2.value-lists-exact', 'entry parameter', loc(B.root), '`construct` does not take the one entry it decodes as its only parameter; not decidable here')
+            return
+        wrong = judge_entry(attrs, outs)
+        n += 1
+        inst = 'values %s' % show_values(attrs[0][1]) if len(attrs) == 1 else 'attributes %s' % ', '.join('%s %s' % (a.decode(), show_values(v)) for a, v in attrs)
+        ctx.add('V2.value-lists-exact', inst, loc(B.root), not wrong,
+                '%s: %s' % (inst, '; '.join(wrong)) +
+                ' - every attribute must be a key of exactly one map: of `attrs` (values as text, in order) exactly when all its values are valid UTF-8, otherwise of `bin_attrs` (all its values as octets)')
+    ctx.floor('V2.value-lists-exact', 'entries `construct` was interpreted on', n, 20)
+
 def run(ctx):
     f = ctx.facts
     B = hirq.Body(f, f.body(P))
     ctx.analysed['bodies'].add(P)
+    exact_value_lists(ctx, f, B)
     # every loop is entered from the states its back edge can carry (flags exactly, local vectors as an unknown prefix); a path ends
     # where it reaches a back edge ('loop'), so the paths through the attribute loop are one generic iteration of it
     I = absx.Interp(f, B, unroll=1, for_once=False, result_combinators=True, combinators=True)
